@@ -49,6 +49,15 @@ theorem best_mem {pop : Pop F} {b : Ind F} (h : best pop = .ok (some b)) : b ∈
       rw [← h, ← withKeys_map_fst hk]
       exact List.mem_map_of_mem (firstMin_mem hm)
 
+theorem bestAt_mem {pop : Pop F} {i : Nat} {b : Ind F} (h : bestAt pop i = .ok (some b)) : b ∈ pop := by
+  simp only [bestAt] at h
+  cases hk : withKeys pop with
+  | none => simp [hk] at h
+  | some ks =>
+    simp only [hk] at h
+    injection h with h
+    exact List.mem_of_getElem? h
+
 theorem sampleWeighted_ok {O : Ops F} {pop : Pop F} {ws : List F} {is : List Nat} {sel : Pop F}
     (h : sampleWeighted O pop ws is = .ok sel) : sel = pick pop is := by
   simp only [sampleWeighted] at h
@@ -106,16 +115,16 @@ theorem select_exponentialRank (O : Ops F) (n : Nat) (base : F) (is : List Nat) 
 theorem select_deRand (O : Ops F) (y : Nat) (ss : List (List Nat)) (pop : Pop F) :
     select O (.deRand y) (.sets ss) pop =
       if pop.length < 2 * y + 1 then .error .exec else .ok (ss.flatMap fun s => pick pop s) := rfl
-theorem select_deBest (O : Ops F) (y : Nat) (ss : List (List Nat)) (pop : Pop F) :
-    select O (.deBest y) (.sets ss) pop =
+theorem select_deBest (O : Ops F) (y bi : Nat) (ss : List (List Nat)) (pop : Pop F) :
+    select O (.deBest y) (.setsBest bi ss) pop =
       if pop.length < 2 * y then .error .exec else
-      match best pop with
+      match bestAt pop bi with
       | .error e => .error e
       | .ok none => .error .exec
       | .ok (some b) => .ok (ss.flatMap fun s => b :: pick pop s) := rfl
-theorem select_deCurrentToBest (O : Ops F) (y : Nat) (ss : List (List Nat)) (pop : Pop F) :
-    select O (.deCurrentToBest y) (.sets ss) pop =
-      match best pop with
+theorem select_deCurrentToBest (O : Ops F) (y bi : Nat) (ss : List (List Nat)) (pop : Pop F) :
+    select O (.deCurrentToBest y) (.setsBest bi ss) pop =
+      match bestAt pop bi with
       | .error e => .error e
       | .ok none => .error .exec
       | .ok (some b) =>
@@ -189,7 +198,7 @@ theorem select_mem (O : Ops F) (op : Op F) (w : Witness F) (pop sel : Pop F)
       intro x hx
       obtain ⟨s, _, hs⟩ := List.mem_flatMap.mp hx
       rcases List.mem_cons.mp hs with rfl | hs
-      · exact best_mem hb
+      · exact bestAt_mem hb
       · exact mem_of_mem_pick hs
   · split at h
     · cases h
@@ -204,7 +213,7 @@ theorem select_mem (O : Ops F) (op : Op F) (w : Witness F) (pop sel : Pop F)
       rcases List.mem_cons.mp hs with rfl | hs
       · exact (List.of_mem_zip hp).1
       · rcases List.mem_cons.mp hs with rfl | hs
-        · exact best_mem hb
+        · exact bestAt_mem hb
         · exact (List.mem_filter.mp (mem_of_mem_pick hs)).1
   · split_ifs at h
     split at h
@@ -361,57 +370,118 @@ theorem length_flatMap_const {α β : Type} (l : List α) (f : α → List β) (
     rw [h a (by simp), ih (fun x hx => h x (by simp [hx]))]
     rw [Nat.succ_mul]; omega
 
+theorem bestAt_some {pop : Pop F} {i : Nat} {b : Ind F} (h : bestAt pop i = .ok (some b)) : pop[i]? = some b := by
+  simp only [bestAt] at h
+  cases hk : withKeys pop with
+  | none => simp [hk] at h
+  | some ks => simp only [hk] at h; injection h with h
+
+/-- a legal "best" position holds a member whose objective is minimal -/
+theorem bestIdx_spec {pop : Pop F} {i : Nat} {b : Ind F} (hb : BestIdx pop i) (h : pop[i]? = some b) :
+    b ∈ pop ∧ ∃ a, b.obj = some a ∧ ∀ x ∈ pop, ∀ c, x.obj = some c → a ≤ c := by
+  refine ⟨List.mem_of_getElem? h, ?_⟩
+  rcases hb with rfl | ⟨x, a, hx, ha, hmin⟩
+  · simp at h
+  · rw [h] at hx; injection hx with hx; subst hx
+    exact ⟨a, ha, hmin⟩
+
+/-- `DERand`: one block per member; a block is the source read at `2y+1` pairwise distinct positions. -/
+theorem de_rand_shape (O : Ops F) (y : Nat) (ss : List (List Nat)) (pop sel : Pop F)
+    (hl : Legal (.deRand y) pop (.sets ss)) (h : select O (.deRand y) (.sets ss) pop = .ok sel) :
+    sel = (ss.map fun s => pick pop s).flatten ∧ ss.length = pop.length ∧
+    ∀ s ∈ ss, s.length = 2 * y + 1 ∧ s.Nodup ∧ inRange pop.length s := by
+  simp only [Legal] at hl
+  rw [select_deRand] at h
+  split_ifs at h with hlt
+  injection h with h; subst h
+  refine ⟨by rw [List.flatMap_def], hl.1, fun s hs => ?_⟩
+  obtain ⟨h1, h2, h3⟩ := hl.2 s hs
+  exact ⟨by rw [h1]; omega, h2, h3⟩
+
+/-- `DEBest`: every block is `[best, 2y distinct members]`; `best` is one member of minimal objective,
+the same in every block. -/
+theorem de_best_shape (O : Ops F) (y bi : Nat) (ss : List (List Nat)) (pop sel : Pop F)
+    (hl : Legal (.deBest y) pop (.setsBest bi ss)) (h : select O (.deBest y) (.setsBest bi ss) pop = .ok sel) :
+    ∃ b a, pop[bi]? = some b ∧ b.obj = some a ∧ (∀ x ∈ pop, ∀ c, x.obj = some c → a ≤ c) ∧
+      sel = (ss.map fun s => b :: pick pop s).flatten ∧ ss.length = pop.length ∧
+      ∀ s ∈ ss, s.length = 2 * y ∧ s.Nodup ∧ inRange pop.length s := by
+  simp only [Legal] at hl
+  rw [select_deBest] at h
+  split_ifs at h with hlt
+  split at h
+  · cases h
+  · cases h
+  · next b hb =>
+    injection h with h; subst h
+    have hbi := bestAt_some hb
+    obtain ⟨_, a, ha, hmin⟩ := bestIdx_spec hl.2 hbi
+    refine ⟨b, a, hbi, ha, hmin, by rw [List.flatMap_def], hl.1.1, fun s hs => ?_⟩
+    obtain ⟨h1, h2, h3⟩ := hl.1.2 s hs
+    exact ⟨by rw [h1]; omega, h2, h3⟩
+
+/-- `DECurrentToBest` (`y ≥ 1`): the block of a member is `[that member, best, 2y-1 distinct members that
+differ from it]`; `best` is one member of minimal objective, the same in every block. -/
+theorem de_ctb_shape (O : Ops F) (y bi : Nat) (ss : List (List Nat)) (pop sel : Pop F)
+    (hl : Legal (.deCurrentToBest y) pop (.setsBest bi ss))
+    (h : select O (.deCurrentToBest y) (.setsBest bi ss) pop = .ok sel) :
+    ∃ b a, pop[bi]? = some b ∧ b.obj = some a ∧ (∀ x ∈ pop, ∀ c, x.obj = some c → a ≤ c) ∧
+      sel = ((pop.zip ss).map fun (p : Ind F × List Nat) =>
+        p.1 :: b :: pick (pop.filter (fun j => !sameInd j p.1)) p.2).flatten ∧ ss.length = pop.length ∧
+      ∀ p ∈ pop.zip ss, p.2.length = 2 * y - 1 ∧ p.2.Nodup ∧
+        inRange (pop.filter (fun j => !sameInd j p.1)).length p.2 := by
+  simp only [Legal] at hl
+  rw [select_deCurrentToBest] at h
+  split at h
+  · cases h
+  · cases h
+  · next b hb =>
+    split_ifs at h with hany
+    injection h with h; subst h
+    have hbi := bestAt_some hb
+    obtain ⟨_, a, ha, hmin⟩ := bestIdx_spec hl.2 hbi
+    refine ⟨b, a, hbi, ha, hmin, by rw [List.flatMap_def], hl.1.1, fun p hp => ?_⟩
+    obtain ⟨h1, h2, h3⟩ := hl.1.2 p hp
+    refine ⟨?_, h2, h3⟩
+    have hbig : ¬ (pop.filter (fun j => !sameInd j p.1)).length < 2 * y - 1 := by
+      intro hc
+      apply hany
+      rw [List.any_eq_true]
+      exact ⟨p.1, (List.of_mem_zip hp).1, by simpa using hc⟩
+    rw [h1]; omega
+
 /-- DE family: an `Ok` result consists of one block of exactly `2y+1` individuals per member. -/
 theorem de_blocks (O : Ops F) (op : Op F) (y : Nat) (hop : op = .deRand y ∨ op = .deBest y ∨ (op = .deCurrentToBest y ∧ 1 ≤ y))
-    (ss : List (List Nat)) (pop sel : Pop F)
-    (hl : Legal op pop (.sets ss)) (h : select O op (.sets ss) pop = .ok sel) :
+    (w : Witness F) (pop sel : Pop F)
+    (hl : Legal op pop w) (h : select O op w pop = .ok sel) :
     ∃ blocks : List (Pop F), sel = blocks.flatten ∧ blocks.length = pop.length ∧
       ∀ blk ∈ blocks, blk.length = 2 * y + 1 := by
   rcases hop with rfl | rfl | ⟨rfl, hy⟩
-  · simp only [Legal] at hl
-    rw [select_deRand] at h
-    split_ifs at h with hlt
-    injection h with h; subst h
-    refine ⟨ss.map fun s => pick pop s, by rw [List.flatMap_def], by simp [hl.1], ?_⟩
+  · cases w <;> try (simp only [Legal] at hl; done)
+    next ss =>
+    obtain ⟨h1, h2, h3⟩ := de_rand_shape O y ss pop sel hl h
+    refine ⟨_, h1, by simp [h2], ?_⟩
     intro blk hb
     obtain ⟨s, hs, rfl⟩ := List.mem_map.mp hb
-    obtain ⟨h1, _, h3⟩ := hl.2 s hs
-    rw [pick_length pop s h3, h1]; omega
-  · simp only [Legal] at hl
-    rw [select_deBest] at h
-    split_ifs at h with hlt
-    split at h
-    · cases h
-    · cases h
-    · next b _ =>
-      injection h with h; subst h
-      refine ⟨ss.map fun s => b :: pick pop s, by rw [List.flatMap_def], by simp [hl.1], ?_⟩
-      intro blk hb
-      obtain ⟨s, hs, rfl⟩ := List.mem_map.mp hb
-      obtain ⟨h1, _, h3⟩ := hl.2 s hs
-      simp only [List.length_cons]
-      rw [pick_length pop s h3, h1]; omega
-  · simp only [Legal] at hl
-    rw [select_deCurrentToBest] at h
-    split at h
-    · cases h
-    · cases h
-    · next b _ =>
-      split_ifs at h with hany
-      injection h with h; subst h
-      refine ⟨(pop.zip ss).map fun (p : Ind F × List Nat) =>
-          p.1 :: b :: pick (pop.filter (fun j => !sameInd j p.1)) p.2, by rw [List.flatMap_def], by simp [hl.1], ?_⟩
-      intro blk hb
-      obtain ⟨p, hp, rfl⟩ := List.mem_map.mp hb
-      obtain ⟨h1, _, h3⟩ := hl.2 p hp
-      simp only [List.length_cons]
-      rw [pick_length _ p.2 h3, h1]
-      have hbig : ¬ (pop.filter (fun j => !sameInd j p.1)).length < 2 * y - 1 := by
-        intro hc
-        apply hany
-        rw [List.any_eq_true]
-        exact ⟨p.1, (List.of_mem_zip hp).1, by simpa using hc⟩
-      omega
+    obtain ⟨h4, _, h5⟩ := h3 s hs
+    rw [pick_length pop s h5, h4]
+  · cases w <;> try (simp only [Legal] at hl; done)
+    next bi ss =>
+    obtain ⟨b, a, _, _, _, h1, h2, h3⟩ := de_best_shape O y bi ss pop sel hl h
+    refine ⟨_, h1, by simp [h2], ?_⟩
+    intro blk hb
+    obtain ⟨s, hs, rfl⟩ := List.mem_map.mp hb
+    obtain ⟨h4, _, h5⟩ := h3 s hs
+    simp only [List.length_cons]
+    rw [pick_length pop s h5, h4]
+  · cases w <;> try (simp only [Legal] at hl; done)
+    next bi ss =>
+    obtain ⟨b, a, _, _, _, h1, h2, h3⟩ := de_ctb_shape O y bi ss pop sel hl h
+    refine ⟨_, h1, by simp [h2], ?_⟩
+    intro blk hb
+    obtain ⟨p, hp, rfl⟩ := List.mem_map.mp hb
+    obtain ⟨h4, _, h5⟩ := h3 p hp
+    simp only [List.length_cons]
+    rw [pick_length _ p.2 h5, h4]; omega
 
 theorem length_flatten_const {α : Type} (l : List (List α)) (c : Nat) (h : ∀ a ∈ l, a.length = c) :
     l.flatten.length = l.length * c := by
